@@ -33,6 +33,15 @@ CORPUS = [
         "        inner = torch.arange(1, dim - 1)\n        precision_matrix[..., inner, inner] = 2.0 * precision\n", benign=True, mode='text'),
     Mut('c20-slice-fills-block', 'torchtree/distributions/gmrf.py', '', "        precision_matrix[..., range(1, dim - 1), range(1, dim - 1)] = 2.0 * precision\n",
         "        precision_matrix[..., 1:-1, 1:-1] = 2.0 * precision.unsqueeze(-1)\n", expect=[('C20.Q', 'GMRF.precision_matrix::dim=5::quadratic-form')], mode='text'),
+    T('c20-constructor-slots-swapped', GM, "        tree_model: TimeTreeModel = None,\n        weights: torch.Tensor = None,\n        rescale: bool = True,\n", "        tree_model: TimeTreeModel = None,\n        rescale: bool = True,\n        weights: torch.Tensor = None,\n",
+      expect=[('C20.Y', 'GMRF.from_json::GMRF')]),
+    T('c20-factory-unknown-keyword', GM, "        return cls(id_, field, precision, tree_model, weights, rescale)", "        return cls(id_, field, precision, tree_model, weights, rescaled=rescale)", expect=[('C20.Y', 'GMRF.from_json::GMRF')]),
+    T('c20-benign-factory-keywords', GM, "        return cls(id_, field, precision, tree_model, weights, rescale)", "        return cls(id_, field, precision, rescale=rescale, weights=weights, tree_model=tree_model)", benign=True),
+    T('c20-skyride-split-points-from-first-sample', CO, "                    torch.where(node_mask_sorted[i] == -1)[0],", "                    torch.where(node_mask_sorted[0] == -1)[0],",
+      expect=[('C20.G', 'PiecewiseConstantCoalescent.sufficient_statistics::split-points-from-the-rows-they-split')]),
+    T('c20-grid-counts-split-on-reshaped-mask', CO, "            node_mask_sorted == -1, torch.where(node_mask_sorted == 0)[0]\n", "            node_mask_sorted == -1, torch.where(node_mask_sorted.flip(-1) == 0)[0]\n",
+      expect=[('C20.G', 'PiecewiseConstantCoalescentGrid.sufficient_statistics::split-points-from-the-rows-they-split')]),
+    T('c20-benign-mask-alias', CO, "                    torch.where(node_mask_sorted[i] == -1)[0],", "                    torch.where((node_mask_sorted[i]) == -1)[0],", benign=True),
 ]
 for m in CORPUS:
     if m.id == 'c20-inner-range':
